@@ -1,8 +1,9 @@
 #!/venv/bin/python
 """py2gallina.py -- FAIL-CLOSED translator from a restricted Python subset to Gallina (Coq 8.16).
 
-Usage:  py2gallina.py [--repo DIR] [--out FILE] [--stdout]
-        DIR defaults to $VERIF_REPO or /repo, FILE to <verif>/coq/Gen/CombiSchemeGen.v
+Usage:  py2gallina.py [--target combischeme|grid|extrapolation] [--repo DIR] [--out FILE] [--stdout]
+        DIR defaults to $VERIF_REPO or /repo, FILE to <verif>/coq/Gen/{CombiSchemeGen,GridGen,ExtrapolationGen}.v
+        (the numeric targets grid / extrapolation are described in NUM_DOC below the combischeme translator)
 Exit 0: FILE holds the translation (rewritten only when its content changed).
 Exit 1: the source uses something outside the subset.  stderr names file:line and the construct; FILE is replaced by
         a stub that does not compile, so that every proof depending on the generated model breaks.
@@ -78,6 +79,8 @@ for mod IF nat seq flat_map fold_left existsb forallb tup flow run_flow bindE bi
 
 INT, BOOL, FLOAT, NONE, UNK, GRID, NPARR = ('int',), ('bool',), ('float',), ('none',), ('unk',), ('grid',), ('nparr',)
 OBJ = ('obj',)
+FARR = ('farr',)          # numpy float array (numeric targets)
+FDICT = ('fdict',)        # defaultdict(list) keyed by floats, values lists of floats (numeric targets)
 TUPI = ('tuple', INT)
 
 
@@ -89,7 +92,7 @@ class Reject(Exception):
 
 
 def is_mutable(t):
-    return t[0] in ('list', 'set', 'dict', 'nparr', 'iter')
+    return t[0] in ('list', 'set', 'dict', 'nparr', 'iter', 'farr', 'fdict')
 
 
 def join(a, b, node):
@@ -99,6 +102,8 @@ def join(a, b, node):
         return b
     if b == UNK:
         return a
+    if {a, b} == {INT, FLOAT}:
+        return FLOAT          # numeric widening: an int that meets a float is embedded
     if a[0] in ('list', 'tuple') and b[0] in ('list', 'tuple'):
         return ('list' if 'list' in (a[0], b[0]) else 'tuple', join(a[1], b[1], node))
     if a[0] == b[0] and len(a) == len(b) and a[0] in ('set', 'iter', 'opt', 'dict', 'pair'):
@@ -137,6 +142,12 @@ def gt(t, node=None):
         return '(list %s)' % gt(t[1], node)
     if k == 'nparr':
         return '(list Z)'
+    if k == 'farr':
+        return '(list Qc)'
+    if k == 'fdict':
+        return '(list (Qc * list Qc))'
+    if k == 'enum':
+        return t[1]
     if k == 'dict':
         return '(list (%s * %s))' % (gt(t[1], node), gt(t[2], node))
     if k == 'pair':
@@ -144,7 +155,7 @@ def gt(t, node=None):
     if k == 'grid':
         return '(list Z * Qc)'
     if k == 'obj':
-        return 'CombiScheme_t'
+        return (t[1] if len(t) > 1 else 'CombiScheme') + '_t'
     if k == 'opt':
         return '(option %s)' % gt(t[1], node)
     raise Reject(node, 'type of this expression could not be determined')
@@ -428,6 +439,7 @@ class FnTranslator:
         self.used_iters = set()
         self.loop_depth = 0
         self.range_vars = set()   # loop variables of range(...) with non-negative start
+        self.thread_self = (f.kind == 'method')   # methods take and return the object state
 
     def temp(self):
         self.ntemp += 1
@@ -635,7 +647,7 @@ class FnTranslator:
                 term = 'tt'
             elif t == INT and rt == FLOAT:
                 term = '(py_Z2Qc %s)' % term
-            if self.f.kind == 'method':
+            if self.thread_self:
                 term = '(%s, self)' % term
             return L + [sp + 'Ret %s' % term], None
         if isinstance(st, ast.Assert):
@@ -1289,6 +1301,1563 @@ class FnTranslator:
         return binds, tmp, rt
 
 
+# ======================================================================================================================
+#                         NUMERIC TARGETS  (floats as exact rationals, numpy float arrays, class hierarchies)
+# ======================================================================================================================
+NUM_DOC = """
+NUMERIC TARGETS (--target grid | extrapolation): the scheme above plus the following (semantics in coq/Base/PyNum.v)
+  floats    Python float / numpy.float64 -> Qc.  FLOAT ARITHMETIC IS READ AS EXACT ARITHMETIC, comparisons between floats
+            are exact comparisons, rounding/inf/nan are not modelled.  A decimal literal is the decimal number written.
+            An int that meets a float is embedded by py_Z2Qc; a variable that is assigned ints and floats (`w = 0` ...
+            `w += x / 2`) is a rational from its first assignment on.  x / y -> py_fdiv (None for y = 0) unless y is a
+            non-zero literal; x ** k -> Qcpower for a literal k >= 0, py_fpow otherwise; int ** int with an exponent
+            that is not visibly non-negative is read as the rational number (Python: int for e >= 0, float for e < 0).
+            All arithmetic carries explicit scope delimiters (%Z / %Qc).
+  numpy     np.zeros(n) -> np_zeros (fresh list Qc), a[i] = v / a[i] += v -> py_setitem, a[i] -> py_getitem, len, sum,
+            a[lo:hi] with int bounds -> py_slice; a slice of an ARRAY is a view in numpy and is accepted only as the
+            argument of sum()/len().  Nothing else of numpy is accepted.
+  lists     l[lo:hi] of a LIST is a fresh copy (may be bound to a name); min(l) / max(l) -> py_list_min / py_list_max (ValueError
+            for an empty list), l.index(x) -> py_list_index (ValueError if absent) on lists of ints.
+  dicts     defaultdict(list) keyed by floats -> an insertion-ordered association list (list (Qc * list Qc));
+            d[k].append(v) -> py_fdict_append (the key is created at its first access; keys are compared as rationals).
+  syntax    chained comparisons (a <= b <= c: b is evaluated once, c must not raise), conditional expressions
+            (x if c else y: lazily), `raise E(..)` -> Fail, `x is None`, tuple results / unpacking of pairs, enumerate(),
+            `while c: body` -> py_while FUEL (..) only if the target configuration (or --while-fuel Class.method=TERM) declares
+            a fuel measure for that loop, otherwise rejected; recursion: fuel measure per function in the configuration
+            (the wrapper passes it; out of fuel = None).
+  classes   a class of the target list is translated in one of two modes.
+            param:   (huge classes whose constructor is outside the subset) an attribute READ through self becomes a
+                     parameter self_<attr> of the generated function (type from the target configuration: a typing
+                     precondition; parameters in the order of the configuration); attribute writes are rejected, except
+                     attributes the configuration declares write-only (no translated function reads them): the value is
+                     evaluated, the store dropped, by name.  A translation unit is a method SEEN FROM A RECEIVER CLASS:
+                     C.m is the method m found through the MRO of the listed classes starting at C (possibly inherited),
+                     translated for receivers of dynamic class exactly C; inside it self.m2(..) is C.m2 again (so an
+                     abstract method of the base resolves to the override of C), a name-mangled self.__m2(..) is the
+                     method of the class whose body contains the call; K.m(..) for a listed class K is K.m.
+            record:  the listed classes that inherit from each other form a FAMILY: one record <Root>_t with a field per
+                     attribute assigned in a constructor of the family and (if the family has several classes) the tag
+                     <Root>_cls of the concrete class.  __init__ may consist of an optional leading
+                     super(C, self).__init__(..), `self.a = e` and assert statements; C(..) -> C_new.  Methods must not
+                     assign attributes (objects are immutable values).  obj.m(..) is resolved through the MRO for every
+                     concrete class the receiver can have; if the results differ a dispatch function (match on the tag)
+                     is generated.  @abstractmethod methods (body `pass`) are not translated; abstract classes have no
+                     tag.  CLOSED WORLD: a class of the module that derives from a family class must be in the list.
+            Enum classes become Inductives, == / != the generated <Enum>_eqb.
+  names     np / math must be bound by `import numpy as np` / `import math` only, builtins and the translated classes must
+            not be rebound at module level, also not through the `from sparseSpACE.X import *` chains (followed).
+"""
+from fractions import Fraction
+
+NUM_TARGETS = {
+    # property C09: sparseSpACE/Grid.py
+    'grid': dict(
+        file='sparseSpACE/Grid.py', out='GridGen.v', prop='C09',
+        classes=[
+            dict(name='GlobalTrapezoidalGrid', mode='param',
+                 methods=['compute_weights', 'compute_1D_quad_weights'],
+                 attrs={'modified_basis': BOOL}),
+        ],
+        fuel={}),
+    # property C11: sparseSpACE/Extrapolation.py
+    'extrapolation': dict(
+        file='sparseSpACE/Extrapolation.py', out='ExtrapolationGen.v', prop='C11',
+        enums=['ExtrapolationVersion'],
+        classes=[
+            dict(name='ExtrapolationCoefficients', mode='record'),
+            dict(name='RombergLinearCoefficients', mode='record'),
+            dict(name='RombergDefaultCoefficients', mode='record'),
+            dict(name='RombergSimpsonCoefficients', mode='record'),
+            dict(name='ExtrapolationCoefficientsFactory', mode='record'),
+            dict(name='RombergWeightFactory', mode='param', methods=['get'], attrs={}),
+            dict(name='RombergWeights', mode='record'),
+            dict(name='RombergTrapezoidalWeights', mode='record'),
+            dict(name='RombergSimpsonWeights', mode='record'),
+            # the slice algebra: the constructor of the slice classes is outside the subset (Function objects, adjacency)
+            # support sequences: pure index / list code on self.grid, self.grid_levels
+            dict(name='ExtrapolationGrid', mode='param', methods=['compute_support_sequence', 'get_step_width'],
+                 attrs={'grid': ('list', FLOAT), 'grid_levels': ('list', INT), 'a': FLOAT, 'b': FLOAT}),
+            dict(name='ExtrapolationGridSlice', mode='param', methods=[], attrs={}),
+            dict(name='RombergGridSlice', mode='param',
+                 methods=['get_weight_for_left_and_right_support_point', 'get_support_points_with_their_weights',
+                          'subtract_constants', 'get_final_weights'],
+                 attrs={'left_point': FLOAT, 'right_point': FLOAT, 'width': FLOAT, 'max_level': INT,
+                        'support_sequence': ('list', ('pair', FLOAT, FLOAT)),
+                        'coefficient_factory': ('obj', 'ExtrapolationCoefficientsFactory')},
+                 write_only=['extrapolated_weights_dict']),
+            dict(name='TrapezoidalGridSlice', mode='param',
+                 methods=['get_weight_for_left_and_right_support_point', 'get_final_weights'],
+                 attrs={'left_point': FLOAT, 'right_point': FLOAT, 'width': FLOAT},
+                 write_only=['extrapolated_weights_dict']),
+        ],
+        # the recursion halves nothing but shrinks stop_index - start_index in every call: at most len(grid_levels) calls
+        fuel={'ExtrapolationGrid.__compute_support_sequence_rec': 'S (length self_grid_levels)'}),
+}
+
+BUILTINS_USED = ['len', 'sum', 'abs', 'min', 'max', 'range', 'print', 'super', 'tuple', 'list', 'set', 'map', 'float', 'int',
+                 'enumerate', 'isinstance', 'sorted', 'RuntimeError', 'ValueError', 'AssertionError', 'NotImplementedError']
+IGNORED_BASES = ('object', 'ABC', 'abc.ABC')
+RESERVED_NUM = set('''Qc_leb Qc_ltb Qc_eqb Qc_abs Qcpower Qcplus Qcmult Qcminus Qcopp Qcinv Qcdiv Q2Qc Qc2 Qchalf sumQ dotQ nth
+firstn skipn combine rev last removelast tl hd'''.split())
+
+
+class Rewiden(Exception):
+    """a variable turned out to hold ints and floats: restart the translation of the function with it widened"""
+
+
+class ClassInfo:
+    def __init__(self, name, node, cfg):
+        self.name = name
+        self.node = node
+        self.cfg = cfg
+        self.mode = cfg['mode']
+        self.base = None          # ClassInfo of the (single) base inside the target list
+        self.family = None
+        self.defs = {}            # method name -> Fn (translated methods defined in this class)
+        self.abstract = set()     # names of @abstractmethod methods defined here
+        self.subclasses = []
+
+    def mro(self):
+        c = self
+        while c is not None:
+            yield c
+            c = c.base
+
+
+class Family:
+    def __init__(self, root):
+        self.root = root
+        self.members = []
+        self.fields = {}
+        self.field_order = []
+
+    @property
+    def name(self):
+        return self.root.name
+
+    @property
+    def tname(self):
+        return self.root.name + '_t'
+
+    @property
+    def tagged(self):
+        return len(self.members) > 1
+
+    def concrete(self):
+        return [c for c in self.members if c.is_concrete]
+
+
+def zlit(n):
+    return '(%d)' % n if n < 0 else '%d' % n
+
+
+def lit_value(node):
+    """numeric value of a literal (possibly negated), else None"""
+    if isinstance(node, ast.Constant) and type(node.value) in (int, float):
+        return node.value
+    if isinstance(node, ast.UnaryOp) and isinstance(node.op, ast.USub) and isinstance(node.operand, ast.Constant) \
+            and type(node.operand.value) in (int, float):
+        return -node.operand.value
+    return None
+
+
+class NumTranslator(Translator):
+    def __init__(self, repo, name):
+        Translator.__init__(self, repo)
+        self.tname = name
+        self.cfg = NUM_TARGETS[name]
+        self.file = self.cfg['file']
+        self.classes = {}
+        self.enums = {}
+        self.families = []
+        self.unit_order = []
+        self.sources = [self.file]
+        self.while_fuel = dict(self.cfg.get('while_fuel', {}))   # qualified name -> [fuel measure of its 1st, 2nd, .. while loop]
+
+    # ------------------------------------------------------------------------------------------ loading
+    def module_bindings(self, relfile, seen):
+        """names bound at the top level of a module (following `from sparseSpACE.X import *`): name -> set of origins"""
+        if relfile in seen:
+            return {}
+        seen.add(relfile)
+        path = os.path.join(self.repo, relfile)
+        mod = ast.parse(open(path).read())
+        res = {}
+
+        def add(n, origin):
+            res.setdefault(n, set()).add(origin)
+
+        def walk(stmts):
+            for st in stmts:
+                if isinstance(st, (ast.FunctionDef, ast.AsyncFunctionDef)):
+                    add(st.name, 'def:%s:%d' % (relfile, st.lineno))
+                elif isinstance(st, ast.ClassDef):
+                    add(st.name, 'class:%s' % relfile)
+                elif isinstance(st, ast.Import):
+                    for al in st.names:
+                        add(al.asname or al.name.split('.')[0], 'import:' + (al.name if al.asname else al.name.split('.')[0]))
+                elif isinstance(st, ast.ImportFrom):
+                    for al in st.names:
+                        if al.name == '*':
+                            m = st.module or ''
+                            if not m.startswith('sparseSpACE.'):
+                                raise Reject(st, 'star import from %s in %s (cannot see which names it rebinds)' % (m, relfile))
+                            sub = m.replace('.', '/') + '.py'
+                            for n, o in self.module_bindings(sub, seen).items():
+                                if not n.startswith('_'):
+                                    for x in o:
+                                        add(n, x)
+                        else:
+                            add(al.asname or al.name, 'from:%s:%s' % (st.module, al.name))
+                elif isinstance(st, (ast.Assign, ast.AugAssign, ast.AnnAssign)):
+                    tg = st.targets if isinstance(st, ast.Assign) else [st.target]
+                    for t in tg:
+                        for n in ast.walk(t):
+                            if isinstance(n, ast.Name):
+                                add(n.id, 'assign:%s:%d' % (relfile, st.lineno))
+                elif isinstance(st, (ast.If, ast.Try, ast.With, ast.For, ast.While)):
+                    for fld in ('body', 'orelse', 'finalbody'):
+                        walk(getattr(st, fld, []) or [])
+                    for h in getattr(st, 'handlers', []) or []:
+                        walk(h.body)
+        walk(mod.body)
+        return res
+
+    def load(self):
+        cfg = self.cfg
+        self.curfile = self.file
+        src = open(os.path.join(self.repo, self.file)).read()
+        mod = ast.parse(src)
+        # ---- name resolution: the names the translation relies on are bound as expected
+        binds = self.module_bindings(self.file, set())
+        for n, want in (('np', 'import:numpy'), ('math', 'import:math')):
+            if n in binds and binds[n] != {want}:
+                raise Reject(mod, "name %r is bound by %s (expected only `%s`)" % (n, sorted(binds[n]), want))
+        for n in BUILTINS_USED:
+            if n in binds:
+                raise Reject(mod, 'builtin %r is rebound at module level (%s)' % (n, sorted(binds[n])))
+        listed = [c['name'] for c in cfg['classes']] + list(cfg.get('enums', []))
+        for n in listed:
+            if binds.get(n) != {'class:%s' % self.file}:
+                raise Reject(mod, 'class %s is not bound exactly once, by its class statement in %s (%s)'
+                             % (n, self.file, sorted(binds.get(n, []))))
+        for n, want in (('Enum', 'from:enum:Enum'), ('ABC', 'from:abc:ABC'), ('abstractmethod', 'from:abc:abstractmethod'),
+                        ('defaultdict', 'from:collections:defaultdict')):
+            if n in binds and binds[n] != {want}:
+                raise Reject(mod, 'name %r is bound by %s' % (n, sorted(binds[n])))
+        nodes = {}
+        for st in mod.body:
+            if isinstance(st, ast.ClassDef):
+                nodes[st.name] = st
+        # ---- enums
+        for en in cfg.get('enums', []):
+            nd = nodes[en]
+            if [ast.unparse(b) for b in nd.bases] != ['Enum'] or nd.keywords or nd.decorator_list:
+                raise Reject(nd, 'enum class %s must derive from Enum only' % en)
+            members, vals = [], set()
+            for st in nd.body:
+                if isinstance(st, ast.Expr) and isinstance(st.value, ast.Constant) and isinstance(st.value.value, str):
+                    continue
+                if not (isinstance(st, ast.Assign) and len(st.targets) == 1 and isinstance(st.targets[0], ast.Name)
+                        and isinstance(st.value, ast.Constant) and type(st.value.value) is int):
+                    raise Reject(st, 'enum %s may only contain NAME = <int literal>' % en)
+                if st.value.value in vals:
+                    raise Reject(st, 'enum %s: duplicate value (alias members)' % en)
+                vals.add(st.value.value)
+                members.append(ident(st.targets[0].id, st))
+            if not members:
+                raise Reject(nd, 'enum %s without members' % en)
+            self.enums[en] = members
+        # ---- classes
+        for cc in cfg['classes']:
+            nd = nodes[cc['name']]
+            if nd.keywords or nd.decorator_list:
+                raise Reject(nd, 'class keywords / decorators on %s' % nd.name)
+            self.classes[nd.name] = ClassInfo(nd.name, nd, cc)
+        for ci in self.classes.values():
+            inside = []
+            for b in ci.node.bases:
+                bn = ast.unparse(b)
+                if bn in self.classes:
+                    inside.append(self.classes[bn])
+                elif bn in IGNORED_BASES:
+                    pass
+                elif ci.mode == 'record':
+                    raise Reject(ci.node, 'base class %s of %s is outside the target list' % (bn, ci.name))
+                # param mode: a base outside the list is tolerated; a method that would have to be looked up there is rejected
+            if len(inside) > 1:
+                raise Reject(ci.node, 'multiple inheritance inside the target list')
+            if inside:
+                if inside[0].mode != ci.mode:
+                    raise Reject(ci.node, 'class %s and its base %s are translated in different modes' % (ci.name, inside[0].name))
+                ci.base = inside[0]
+                inside[0].subclasses.append(ci)
+        # closed world: every class of the module deriving from a record class is listed
+        for nm, nd in nodes.items():
+            if nm in self.classes:
+                continue
+            for b in nd.bases:
+                bn = ast.unparse(b)
+                if bn in self.classes and self.classes[bn].mode == 'record':
+                    raise Reject(nd, 'class %s derives from %s but is not in the target list (closed-world dispatch would be wrong)'
+                                 % (nm, bn))
+        # ... also in the other modules of the package
+        pkg = os.path.dirname(os.path.join(self.repo, self.file))
+        for fn_ in sorted(os.listdir(pkg)):
+            if not fn_.endswith('.py') or os.path.join(os.path.dirname(self.file), fn_) == self.file:
+                continue
+            try:
+                omod = ast.parse(open(os.path.join(pkg, fn_)).read())
+            except SyntaxError:
+                continue
+            for nd in ast.walk(omod):
+                if isinstance(nd, ast.ClassDef):
+                    for b in nd.bases:
+                        bn = ast.unparse(b).split('.')[-1]
+                        if bn in self.classes and self.classes[bn].mode == 'record':
+                            self.curfile = os.path.join(os.path.dirname(self.file), fn_)
+                            raise Reject(nd, 'class %s derives from %s outside the translated module (closed-world dispatch would '
+                                             'be wrong)' % (nd.name, bn))
+        # families
+        for ci in self.classes.values():
+            if ci.mode == 'record' and ci.base is None:
+                fam = Family(ci)
+                self.families.append(fam)
+                stack = [ci]
+                while stack:
+                    c = stack.pop(0)
+                    c.family = fam
+                    fam.members.append(c)
+                    stack = c.subclasses + stack
+                fam.members.sort(key=lambda c: c.node.lineno)
+        # ---- methods
+        for ci in self.classes.values():
+            seen = set()
+            ci.nodes = {}
+            for st in ci.node.body:
+                if isinstance(st, ast.Expr) and isinstance(st.value, ast.Constant) and isinstance(st.value.value, str):
+                    continue
+                if not isinstance(st, ast.FunctionDef):
+                    if ci.mode == 'record':
+                        raise Reject(st, 'class-level statement %s in %s' % (type(st).__name__, ci.name))
+                    continue
+                if st.name in seen:
+                    raise Reject(st, 'method %s defined twice' % st.name)
+                seen.add(st.name)
+                decos = [ast.unparse(d) for d in st.decorator_list]
+                if decos == ['abstractmethod']:
+                    body = [x for x in st.body if not (isinstance(x, ast.Expr) and isinstance(x.value, ast.Constant)
+                                                       and isinstance(x.value.value, str))]
+                    if ci.mode == 'record' or st.name in ci.cfg.get('methods', []):
+                        if not (len(body) == 1 and isinstance(body[0], ast.Pass)):
+                            raise Reject(st, 'abstract method %s with a body' % st.name)
+                    ci.abstract.add(st.name)
+                    continue
+                ci.nodes[st.name] = st
+                if ci.mode == 'param':
+                    continue          # units of param classes are created per RECEIVER class, see param_unit
+                q = ci.name + '.' + st.name
+                f = self.new_fn(q, st, ci)
+                ci.defs[st.name] = f
+                self.unit_order.append(q)
+        for ci in self.classes.values():
+            if ci.mode == 'param':
+                for a_ in ci.cfg.get('write_only', []):
+                    if a_ in ci.cfg['attrs']:
+                        raise Reject(ci.node, 'attribute %s of %s is declared both write-only and readable' % (a_, ci.name))
+                for m in ci.cfg['methods']:
+                    f = self.param_unit(ci, m, ci.node)
+                    if f is None:
+                        raise Reject(ci.node, 'method %s.%s not found in %s and its listed bases' % (ci.name, m, ci.name))
+                    self.unit_order.append(f.qual)
+        for ci in self.classes.values():
+            # concrete = every abstract method of the MRO is implemented below it
+            need = set()
+            for c in reversed(list(ci.mro())):
+                need |= c.abstract
+                need -= set(c.nodes)
+            ci.is_concrete = not need
+        self.unit_order.sort(key=lambda q: self.fns[q].node.lineno)
+
+    def new_fn(self, q, st, ci):
+        """a translation unit: the function definition st seen from (receiver) class ci"""
+        decos = [ast.unparse(d) for d in st.decorator_list]
+        if decos == []:
+            kind = 'init' if st.name == '__init__' else 'method'
+        elif decos == ['staticmethod']:
+            kind = 'static'
+        else:
+            raise Reject(st, 'decorator %s' % decos)
+        if kind == 'init' and ci.mode == 'param':
+            raise Reject(st, '__init__ of a class translated in param mode')
+        if st.name.startswith('__') and not st.name.endswith('__') and ci.mode != 'param':
+            raise Reject(st, 'name-mangled method %s' % st.name)
+        if q in self.fns:
+            raise Reject(st, 'translation unit %s defined twice' % q)
+        f = Fn(q, st, kind, self.file)
+        f.cls = ci
+        f.widen = set()
+        f.self_attrs = []
+        self.fns[q] = f
+        self.signature(f)
+        return f
+
+    def param_unit(self, recv, m, node, within=None):
+        """method m for receivers of dynamic class exactly recv (param mode): found through the MRO of the listed classes.
+        A name-mangled method (self.__m inside class `within`) is the one defined in `within` itself."""
+        q = recv.name + '.' + m
+        if q in self.fns:
+            return self.fns[q]
+        if m.startswith('__') and not m.endswith('__'):
+            c = within if within is not None else recv
+            if m in c.nodes:
+                f = self.new_fn(q, c.nodes[m], recv)
+                f.defcls = c
+                return f
+            return None
+        for c in recv.mro():
+            if m in c.nodes:
+                f = self.new_fn(q, c.nodes[m], recv)
+                f.defcls = c
+                return f
+            if m in c.abstract:
+                return None
+        return None
+
+    def signature(self, f):
+        a = f.node.args
+        if a.vararg or a.kwarg or a.kwonlyargs or a.posonlyargs:
+            raise Reject(f.node, 'star / keyword-only parameters')
+        args = list(a.args)
+        if f.kind in ('method', 'init'):
+            if not args or args[0].arg != 'self':
+                raise Reject(f.node, 'method without self')
+            args = args[1:]
+        defaults = [None] * (len(args) - len(a.defaults)) + list(a.defaults)
+        for ar, df in zip(args, defaults):
+            if ar.annotation is None:
+                raise Reject(ar, 'parameter %s without annotation' % ar.arg)
+            t = self.ann(ar.annotation, ar)
+            dterm = None
+            if df is not None:
+                if isinstance(df, ast.Constant) and df.value is None:
+                    if t[0] != 'opt':
+                        t = ('opt', t)
+                    dterm = 'None'
+                elif isinstance(df, ast.Constant) and type(df.value) is bool and t == BOOL:
+                    dterm = 'true' if df.value else 'false'
+                elif isinstance(df, ast.Constant) and type(df.value) is int and t == INT:
+                    dterm = zlit(df.value)
+                elif isinstance(df, ast.Constant) and type(df.value) is int and t == FLOAT:
+                    dterm = '(py_Z2Qc %s)' % zlit(df.value)
+                elif isinstance(df, ast.Attribute) and isinstance(df.value, ast.Name) and t == ('enum', df.value.id) \
+                        and df.attr in self.enums[df.value.id]:
+                    dterm = '%s_%s' % (df.value.id, df.attr)
+                else:
+                    raise Reject(df, 'default value of parameter %s' % ar.arg)
+            if ar.arg.startswith('self_'):
+                raise Reject(ar, 'parameter name %s clashes with the self_<attr> parameters' % ar.arg)
+            f.params.append((self.ident(ar.arg, ar), t, dterm))
+        f.recursive = f.qual in self.cfg.get('fuel', {})
+
+    def ident(self, name, node):
+        if name in RESERVED_NUM or name.startswith('Qc') or name.startswith('mk_') or name.startswith('set_') \
+                or name in self.classes or name in self.enums or any(name.startswith(c + '_') for c in list(self.classes) + list(self.enums)):
+            raise Reject(node, 'identifier %r clashes with a name used by the translation' % name)
+        return ident(name, node)
+
+    def ann(self, a, node):
+        """type of a parameter annotation (a typing precondition of the generated function)"""
+        if isinstance(a, ast.Name):
+            if a.id == 'float':
+                return FLOAT
+            if a.id in self.enums:
+                return ('enum', a.id)
+            if a.id in self.classes and self.classes[a.id].mode == 'record':
+                return ('obj', self.classes[a.id].family.name)
+            if a.id in ('int', 'bool'):
+                return ann_type(a, node)
+        if isinstance(a, ast.Constant) and isinstance(a.value, str) and a.value in self.classes \
+                and self.classes[a.value].mode == 'record':
+            return ('obj', self.classes[a.value].family.name)
+        if isinstance(a, ast.Subscript) and isinstance(a.value, ast.Name):
+            n, s = a.value.id, a.slice
+            if n in ('List', 'Sequence'):
+                return ('list', self.ann(s, node))
+            if n == 'Tuple' and isinstance(s, ast.Tuple) and len(s.elts) == 2 and isinstance(s.elts[1], ast.Constant) \
+                    and s.elts[1].value is Ellipsis:
+                return ('tuple', self.ann(s.elts[0], node))
+            if n == 'Tuple' and isinstance(s, ast.Tuple) and len(s.elts) == 2:
+                return ('pair', self.ann(s.elts[0], node), self.ann(s.elts[1], node))
+            if n == 'Optional':
+                return ('opt', self.ann(s, node))
+            if n == 'Dict' and isinstance(s, ast.Tuple) and len(s.elts) == 2 and self.ann(s.elts[0], node) == FLOAT \
+                    and self.ann(s.elts[1], node) == ('list', FLOAT):
+                return FDICT
+        raise Reject(node, 'unsupported parameter annotation %s' % ast.unparse(a))
+
+    # ------------------------------------------------------------------------------------------ driver
+    def translate(self):
+        self.load()
+        prev = None
+        for it in range(8):
+            self.strict = False
+            self.run_pass()
+            snap = ({f.name: dict(f.fields) for f in self.families},
+                    {q: (f.ret, f.returns_alias, tuple(f.self_attrs), tuple(sorted(f.widen))) for q, f in self.fns.items()})
+            if snap == prev:
+                break
+            prev = snap
+        else:
+            raise Reject(None, 'type inference did not converge')
+        self.strict = True
+        return self.run_pass()
+
+    def run_pass(self):
+        self.done = []
+        self.state = {}
+        self.dispatchers = {}
+        self.newfam = {f.name: {} for f in self.families}
+        # constructors first (they fix the attribute types), then everything in source order; callees on demand
+        for q in [q for q in self.unit_order if self.fns[q].kind == 'init'] + self.unit_order:
+            self.ensure(q, None)
+        for fam in self.families:
+            for a, t in self.newfam[fam.name].items():
+                fam.fields[a] = t
+            fam.field_order = [a for a in fam.field_order if a in fam.fields] + \
+                              [a for a in fam.fields if a not in fam.field_order]
+        return self.done
+
+    def ensure(self, q, node):
+        st = self.state.get(q)
+        if st == 2:
+            return
+        if st == 1:
+            raise Reject(node, 'recursion through %s without a declared fuel measure' % q)
+        self.state[q] = 1
+        f = self.fns[q]
+        text = NumFnTranslator(self, f).run()
+        self.state[q] = 2
+        self.done.append((q, text))
+
+    def fam_by_name(self, n):
+        for f in self.families:
+            if f.name == n:
+                return f
+        return None
+
+    def fam_field_type(self, fam, attr, node):
+        t = self.newfam[fam.name].get(attr, fam.fields.get(attr))
+        if t is None:
+            if self.strict:
+                raise Reject(node, 'attribute %s is not assigned by any constructor of the family %s' % (attr, fam.name))
+            return UNK
+        return t
+
+    def note_fam_field(self, fam, attr, t, node):
+        old = self.newfam[fam.name].get(attr, UNK)
+        self.newfam[fam.name][attr] = join(old, t, node)
+        if attr not in fam.field_order:
+            fam.field_order.append(attr)
+
+    def resolve(self, ci, m):
+        """method m as seen from class ci (MRO inside the target list); None if not found"""
+        if ci.mode == 'param':
+            return self.param_unit(ci, m, ci.node)
+        for c in ci.mro():
+            if m in c.defs:
+                return c.defs[m]
+            if m in c.abstract:
+                return None
+        return None
+
+
+class NumFnTranslator(FnTranslator):
+    def __init__(self, tr, f):
+        FnTranslator.__init__(self, tr, f)
+        self.thread_self = False
+        self.views_ok = set()
+
+    # ------------------------------------------------------------------------------------------ function
+    def run(self):
+        while True:
+            self.ntemp = 0
+            self.rets = []
+            self.used_iters = set()
+            self.loop_depth = 0
+            self.range_vars = set()
+            self.f.self_attrs_new = []
+            self.nwhile = 0
+            try:
+                return self.run_once()
+            except Rewiden:
+                continue
+
+    def widen(self, name, node):
+        if name in self.f.widen:
+            self.rej(node, 'variable %s holds ints and floats in a way that is not translated' % name)
+        self.f.widen.add(name)
+        raise Rewiden()
+
+    def run_once(self):
+        f = self.f
+        tr = self.tr
+        tr.curfile = f.file
+        ci = f.cls
+        env = {}
+        if ci.mode == 'record' and f.kind != 'init':
+            for c in ci.family.members:       # the attribute types come from the constructors of the family
+                if '__init__' in c.defs:
+                    tr.ensure(c.name + '.__init__', f.node)
+        if f.kind == 'method' and ci.mode == 'record':
+            env['self'] = dict(t=('obj', ci.family.name), owned=False, depth=0)
+        for (n, t, d) in f.params:
+            if n in env:
+                self.rej(f.node, 'duplicate parameter ' + n)
+            env[n] = dict(t=t, owned=not is_mutable(t), depth=0)
+        body = list(f.node.body)
+        if body and isinstance(body[0], ast.Expr) and isinstance(body[0].value, ast.Constant) and \
+                isinstance(body[0].value.value, str):
+            body = body[1:]
+        src = '(* %s:%d-%d  %s *)' % (f.file, f.node.lineno, f.node.end_lineno, f.qual)
+        dc = getattr(f, 'defcls', None)
+        if dc is not None and dc is not ci:
+            src += '\n(* inherited from %s; translated for receivers of dynamic class %s *)' % (dc.name, ci.name)
+        defaults = [(n, d) for n, t, d in f.params if d is not None]
+        if defaults:
+            src += '\n(* default arguments: %s *)' % ', '.join('%s = %s' % nd for nd in defaults)
+        if f.kind == 'init':
+            return self.run_init_num(body, env, src)
+        if not self.definitely_returns(body):
+            body.append(ast.Return(value=None, lineno=f.node.end_lineno, col_offset=0))
+        self.ret_t = f.ret
+        lines, endenv = self.block(body, env, [], 2)
+        rt = UNK
+        for t in self.rets:
+            rt = join(rt, t, f.node)
+        f.ret = rt
+        if tr.strict and has_unk(rt):
+            self.rej(f.node, 'return type of %s could not be determined' % f.qual)
+        # parameters in the order of the declaration in the target configuration (stable under reordering of the reads)
+        f.self_attrs = [a for a in ci.cfg.get('attrs', {}) if a in f.self_attrs_new]
+        params = ''
+        if f.kind == 'method' and ci.mode == 'record':
+            params += ' (self : %s)' % ci.family.tname
+        if ci.mode == 'param':
+            for a in f.self_attrs:
+                params += ' (self_%s : %s)' % (a, gt(ci.cfg['attrs'][a], f.node))
+            if f.self_attrs:
+                src += '\n(* attributes read through self, parameters here: %s *)' % ', '.join(f.self_attrs)
+        params += ''.join(' (%s : %s)' % (n, gt(t, f.node) if not has_unk(t) else '_') for n, t, d in f.params)
+        rts = gt(rt, f.node) if not has_unk(rt) else '_'
+        sig = '%s : option %s' % (params, rts)
+        if f.recursive:
+            meas = tr.cfg['fuel'][f.qual]
+            head = 'Fixpoint %s_rec (fuel : nat)%s :=\n  match fuel with\n  | O => None\n  | S fuel =>' % (f.gname, sig)
+            text = src + '\n(* fuel passed by the wrapper: %s *)\n' % meas + head + '\n  run_flow (V:=unit) (\n' + '\n'.join(lines) + ')\n  end.\n'
+            allp = []
+            if f.kind == 'method' and ci.mode == 'record':
+                allp.append('self')
+            if ci.mode == 'param':
+                allp += ['self_' + a for a in f.self_attrs]
+            allp += [n for n, t, d in f.params]
+            text += 'Definition %s%s :=\n  %s_rec (%s) %s.\n' % (f.gname, sig, f.gname, meas, ' '.join(allp))
+        else:
+            text = src + '\nDefinition %s%s :=\n  run_flow (V:=unit) (\n' % (f.gname, sig) + '\n'.join(lines) + ').\n'
+        return text
+
+    def run_init_num(self, body, env, src):
+        """__init__ of a record class:  [super(C, self).__init__(..)] ; (self.a = e | assert c)*"""
+        f, tr, ci = self.f, self.tr, self.f.cls
+        fam = ci.family
+        ind = 2
+        sp = ' ' * ind
+        L = []
+        params = ''.join(' (%s : %s)' % (n, gt(t, f.node)) for n, t, d in f.params)
+        clsp = ' (cls : %s_cls)' % fam.name if fam.tagged else ''
+        have_self = False
+        assigned = {}
+        stmts = list(body)
+        if stmts and isinstance(stmts[0], ast.Expr) and isinstance(stmts[0].value, ast.Call) and \
+                isinstance(stmts[0].value.func, ast.Attribute) and stmts[0].value.func.attr == '__init__':
+            c = stmts[0].value
+            sup = c.func.value
+            ok = isinstance(sup, ast.Call) and isinstance(sup.func, ast.Name) and sup.func.id == 'super' and not sup.keywords and \
+                (len(sup.args) == 0 or (len(sup.args) == 2 and isinstance(sup.args[0], ast.Name) and sup.args[0].id == ci.name
+                                        and isinstance(sup.args[1], ast.Name) and sup.args[1].id == 'self'))
+            if not ok:
+                self.rej(c, 'constructor call other than super(%s, self).__init__(..)' % ci.name)
+            if ci.base is None:
+                self.rej(c, 'super().__init__ in a class without a translated base class')
+            g = None
+            for b in ci.base.mro():
+                if '__init__' in b.defs:
+                    g = b.defs['__init__']
+                    break
+            if g is None:
+                self.rej(c, 'no translated __init__ in the bases of %s' % ci.name)
+            tr.ensure(g.qual, c)
+            binds, terms = self.call_args(g, c, env)
+            L += self.emit_binds(binds, ind)
+            L.append(sp + 'self <- (%s%s %s) ;;' % (g.gname, ' cls' if fam.tagged else '', ' '.join(terms)))
+            have_self = True
+            env['self'] = dict(t=('obj', fam.name), owned=False, depth=0)
+            stmts = stmts[1:]
+        for st in stmts:
+            if isinstance(st, ast.Assert):
+                if st.msg is not None:
+                    self.rej(st, 'assert with message')
+                binds, term, t = self.expr(st.test, env)
+                if t not in (BOOL, UNK):
+                    self.rej(st, 'assert on a non-boolean value')
+                L += self.emit_binds(binds, ind)
+                L.append(sp + '_ <~ (py_assert %s (Nxt tt)) ;;' % term)
+                continue
+            if not (isinstance(st, ast.Assign) and len(st.targets) == 1 and isinstance(st.targets[0], ast.Attribute)
+                    and isinstance(st.targets[0].value, ast.Name) and st.targets[0].value.id == 'self'):
+                self.rej(st, '__init__ may only contain super().__init__(..) first, `self.attr = expr` and assert statements')
+            a = st.targets[0].attr
+            self.init_assigned = assigned if not have_self else None
+            binds, term, t = self.expr(st.value, env)
+            L += self.emit_binds(binds, ind)
+            self.check_store(st.value, t, st)
+            if t[0] == 'iter':
+                self.rej(st, 'storing an iterator')
+            tr.note_fam_field(fam, a, t, st)
+            ft = tr.fam_field_type(fam, a, st)
+            if ft == FLOAT and t == INT:
+                term = '(py_Z2Qc %s)' % term
+            if have_self:
+                L.append(sp + 'let self := set_%s_f_%s self %s in' % (fam.name, a, term))
+            else:
+                L.append(sp + 'let _f_%s := %s in' % (a, term))
+                assigned[a] = '_f_%s' % a
+        self.init_assigned = None
+        f.ret = ('obj', fam.name)
+        if have_self:
+            L.append(sp + 'Ret self')
+        else:
+            order = fam.field_order
+            missing = [a for a in order if a not in assigned]
+            if missing and tr.strict:
+                self.rej(f.node, 'constructor of %s does not assign the attribute(s) %s that other constructors of the family '
+                                 'assign (partially initialised objects are not translated)' % (ci.name, ', '.join(missing)))
+            args = ' '.join(assigned.get(a, '_') for a in order)
+            L.append(sp + 'Ret (mk_%s%s %s)' % (fam.tname, ' cls' if fam.tagged else '', args))
+        text = src + '\nDefinition %s%s%s : option %s :=\n  run_flow (V:=unit) (\n' % (f.gname, clsp, params, fam.tname) + \
+            '\n'.join(L) + ').\n'
+        return text
+
+    def definitely_returns(self, stmts):
+        if stmts and isinstance(stmts[-1], ast.Raise):
+            return True
+        return FnTranslator.definitely_returns(self, stmts)
+
+    def assigned(self, stmts):
+        """names (re)bound by a statement list (objects are immutable here: no 'self')"""
+        res = []
+
+        def add(n):
+            if n not in res:
+                res.append(n)
+
+        def target(t):
+            if isinstance(t, ast.Name):
+                add(t.id)
+            elif isinstance(t, ast.Tuple):
+                for x in t.elts:
+                    target(x)
+            elif isinstance(t, ast.Subscript) and isinstance(t.value, ast.Name):
+                add(t.value.id)
+            elif isinstance(t, ast.Attribute) and isinstance(t.value, ast.Name) and t.value.id == 'self':
+                pass          # rejected or dropped (write-only) by assign()
+            else:
+                self.rej(t, 'assignment target %s' % type(t).__name__)
+        for st in stmts:
+            for n in ast.walk(st):
+                if isinstance(n, ast.Call) and isinstance(n.func, ast.Attribute) and n.func.attr in ('append', 'extend', 'add', 'remove'):
+                    v = n.func.value
+                    if isinstance(v, ast.Name):
+                        add(v.id)
+                    elif isinstance(v, ast.Subscript) and isinstance(v.value, ast.Name):    # D[k].append(v)
+                        add(v.value.id)
+                if isinstance(n, ast.Assign):
+                    for t in n.targets:
+                        target(t)
+                if isinstance(n, ast.AugAssign):
+                    target(n.target)
+        return res
+
+    # ------------------------------------------------------------------------------------------ statements
+    def block(self, stmts, env, out, ind):
+        sp = ' ' * ind
+        if stmts:
+            st, rest = stmts[0], stmts[1:]
+            if isinstance(st, ast.Raise):
+                if rest:
+                    self.rej(rest[0], 'statement after raise')
+                if st.cause is not None:
+                    self.rej(st, 'raise ... from')
+                ex = st.exc
+                ok = ex is not None and ((isinstance(ex, ast.Name)) or (isinstance(ex, ast.Call) and isinstance(ex.func, ast.Name)
+                     and all(isinstance(a, ast.Constant) for a in ex.args) and not ex.keywords))
+                nm = ex.id if isinstance(ex, ast.Name) else (ex.func.id if ok else None)
+                if not ok or nm not in ('RuntimeError', 'ValueError', 'AssertionError', 'NotImplementedError'):
+                    self.rej(st, 'raise of anything but a builtin exception with constant arguments')
+                return [sp + '(* %s *)' % ast.unparse(st).replace('(*', '( *').replace('*)', '* )'), sp + 'Fail'], None
+            if isinstance(st, ast.While):
+                # while c: body  ->  vars <~ (py_while FUEL (fun vars => Some [c]) (fun vars => [body]) vars) ;; ...
+                # FUEL is the measure declared for this loop in the target configuration (a nat term over the variables in
+                # scope); running out of fuel is the explicit outcome Fail.  Undeclared loops are rejected.
+                measures = self.tr.while_fuel.get(self.f.qual, [])
+                k = self.nwhile
+                self.nwhile += 1
+                if k >= len(measures):
+                    self.rej(st, 'while loop (no fuel measure declared for it)')
+                if st.orelse:
+                    self.rej(st, 'while ... else')
+                env = dict(env)
+                vs = [n for n in env if n in self.assigned(st.body)]
+                binds, term, t = self.expr(st.test, env)
+                if t not in (BOOL, UNK):
+                    self.rej(st, 'while on a non-boolean value (truthiness of %s is not translated)' % (t,))
+                for pt, _e in binds:
+                    if 'self' in pt:
+                        self.rej(st, 'method call on self in a while condition')
+                cond = '(fun %s => %s)' % (self.lam_pat(vs), self.opt_chain(binds, 'Some %s' % term).strip())
+                self.loop_depth += 1
+                lb, eb = self.block(st.body, dict(env), vs, ind + 4)
+                self.loop_depth -= 1
+                self.merge(env, [eb], vs, st)
+                L = [sp + '%s <~ (py_while (%s) %s (fun %s =>' % (self.pat(vs), measures[k], cond, self.lam_pat(vs))] + lb + \
+                    [sp + '  ) %s) ;;' % self.tuple_term(vs)]
+                lines, e = self.block(rest, env, out, ind)
+                return L + lines, e
+            if isinstance(st, ast.If) and self.definitely_returns(st.body) and self.definitely_returns(st.orelse):
+                # both branches return / raise: the conditional is the end of the block
+                if rest:
+                    self.rej(rest[0], 'statement after an if whose branches both return')
+                binds, term, t = self.expr(st.test, env)
+                if t not in (BOOL, UNK):
+                    self.rej(st, 'if on a non-boolean value (truthiness of %s is not translated)' % (t,))
+                L = self.emit_binds(binds, ind)
+                la, ea = self.block(st.body, dict(env), out, ind + 4)
+                lb, eb = self.block(st.orelse, dict(env), out, ind + 4)
+                return L + [sp + 'if %s then (' % term] + la + [sp + '  ) else ('] + lb + [sp + '  )'], None
+            if isinstance(st, ast.Assign) and len(st.targets) == 1 and isinstance(st.targets[0], ast.Tuple):
+                # (a, b) = e  for a pair-valued e
+                env = dict(env)
+                tg = st.targets[0]
+                if not all(isinstance(x, ast.Name) for x in tg.elts) or len(tg.elts) != 2:
+                    self.rej(st, 'unpacking into anything but two names')
+                binds, term, t = self.expr(st.value, env)
+                if t != UNK and t[0] != 'pair':
+                    self.rej(st, 'unpacking of a value of type %s (only pairs)' % (t,))
+                L = self.emit_binds(binds, ind)
+                names = [x.id for x in tg.elts]
+                for k, n in enumerate(names):
+                    self.setvar(env, n, t[1 + k] if t != UNK else UNK, True, st)
+                L.append(sp + "let '(%s, %s) := %s in" % (names[0], names[1], term))
+                lines, e = self.block(rest, env, out, ind)
+                return L + lines, e
+        return FnTranslator.block(self, stmts, env, out, ind)
+
+    def merge(self, env, ends, vs, node):
+        for n in vs:
+            for e in ends:
+                if e is None:
+                    continue
+                if {env[n]['t'], e[n]['t']} == {INT, FLOAT}:
+                    self.widen(n, node)
+        return FnTranslator.merge(self, env, ends, vs, node)
+
+    def setvar(self, env, name, t, owned, node):
+        if name.startswith('self_'):
+            self.rej(node, 'variable name %s clashes with the self_<attr> parameters' % name)
+        self.tr.ident(name, node)
+        if name in env and {env[name]['t'], t} == {INT, FLOAT} and env[name]['depth'] < self.loop_depth:
+            self.widen(name, node)
+        return FnTranslator.setvar(self, env, name, t, owned, node)
+
+    def assign(self, target, value, st, env, L, ind):
+        sp = ' ' * ind
+        if isinstance(target, ast.Name):
+            binds, term, t = self.expr(value, env, consume=isinstance(value, ast.Call))
+            L += self.emit_binds(binds, ind)
+            fresh_slice = isinstance(value, ast.Subscript) and isinstance(value.slice, ast.Slice) and t[0] == 'list'
+            if is_mutable(t) and not isinstance(value, self.FRESH) and not fresh_slice:
+                self.rej(st, 'assignment `%s` makes two names refer to one mutable object (aliasing)' % ast.unparse(st))
+            if target.id in self.f.widen and t == INT:
+                term, t = '(py_Z2Qc %s)' % term, FLOAT
+            # a slice may be read but not mutated (it would be a view if the sequence is a numpy array at run time)
+            self.setvar(env, target.id, t, not fresh_slice, st)
+            L.append(sp + 'let %s := %s in' % (target.id, term))
+            return
+        if isinstance(target, ast.Attribute) and isinstance(target.value, ast.Name) and target.value.id == 'self' \
+                and self.f.cls.mode == 'param' and target.attr in self.f.cls.cfg.get('write_only', []):
+            # an attribute that no translated function reads (declared write-only in the target configuration): the value is
+            # evaluated, the store is dropped -- the state of the object after the call is not part of the generated function
+            binds, term, t = self.expr(value, env)
+            L += self.emit_binds(binds, ind)
+            L.append(sp + '(* dropped: %s  (write-only attribute) *)' % ast.unparse(st).replace('(*', '( *').replace('*)', '* )'))
+            return
+        if isinstance(target, ast.Attribute):
+            self.rej(st, 'assignment to the attribute %s outside a constructor (objects are immutable values here)'
+                     % ast.unparse(target))
+        return FnTranslator.assign(self, target, value, st, env, L, ind)
+
+    def store_sub(self, x, tx, ti, tyi, tv, tyv, env, st, L, ind):
+        sp = ' ' * ind
+        if tx == FARR or (tx[0] == 'list' and tx[1] == FLOAT):
+            if not env[x]['owned']:
+                self.rej(st, 'mutation of %s, which may be shared with the caller or another object (aliasing)' % x)
+            if tyi not in (INT, UNK):
+                self.rej(st, 'index of type %s' % (tyi,))
+            if tyv == INT:
+                tv = '(py_Z2Qc %s)' % tv
+            elif tyv not in (FLOAT, UNK):
+                self.rej(st, 'storing a value of type %s in a float array' % (tyv,))
+            L.append(sp + '%s <- (py_setitem %s %s %s) ;;' % (x, x, ti, tv))
+            return
+        return FnTranslator.store_sub(self, x, tx, ti, tyi, tv, tyv, env, st, L, ind)
+
+    def augassign(self, st, env, L, ind):
+        # x op= v  is  x = x op v ;  a[i] op= v  is  a[i] = a[i] op v  with i evaluated once (it must not raise)
+        if not isinstance(st.op, (ast.Add, ast.Sub, ast.Mult, ast.Div)):
+            self.rej(st, 'augmented assignment operator %s' % type(st.op).__name__)
+        tg = st.target
+        if isinstance(tg, ast.Name):
+            if tg.id not in env:
+                self.rej(st, 'unknown variable ' + tg.id)
+            if is_mutable(env[tg.id]['t']):
+                self.rej(st, 'augmented assignment to the mutable object %s' % tg.id)
+            load = ast.copy_location(ast.Name(id=tg.id, ctx=ast.Load()), tg)
+            val = ast.copy_location(ast.BinOp(left=load, op=st.op, right=st.value), st)
+            return self.assign(ast.copy_location(ast.Name(id=tg.id, ctx=ast.Store()), tg), val, st, env, L, ind)
+        if isinstance(tg, ast.Subscript) and isinstance(tg.value, ast.Name) and tg.value.id != 'self' \
+                and not isinstance(tg.slice, ast.Slice):
+            x = tg.value.id
+            if x not in env:
+                self.rej(st, 'unknown variable ' + x)
+            tx = env[x]['t']
+            if not (tx == FARR or (tx[0] == 'list' and tx[1] in (FLOAT, INT))):
+                return FnTranslator.augassign(self, st, env, L, ind)
+            bi, ti, tyi = self.expr(tg.slice, env)
+            if bi:
+                self.rej(st, 'raising index expression in an augmented assignment')
+            load = ast.copy_location(ast.Subscript(value=ast.copy_location(ast.Name(id=x, ctx=ast.Load()), tg),
+                                                   slice=tg.slice, ctx=ast.Load()), tg)
+            val = ast.copy_location(ast.BinOp(left=load, op=st.op, right=st.value), st)
+            bv, tv, tyv = self.expr(val, env)
+            L += self.emit_binds(bv, ind)
+            return self.store_sub(x, tx, ti, tyi, tv, tyv, env, st, L, ind)
+        self.rej(st, 'augmented assignment target %s' % ast.unparse(tg))
+
+    def expr_stmt(self, st, env, L, cont, ind):
+        c = st.value
+        sp = ' ' * ind
+        if isinstance(c, ast.Call) and isinstance(c.func, ast.Attribute) and c.func.attr == 'append' and \
+                isinstance(c.func.value, ast.Subscript) and isinstance(c.func.value.value, ast.Name) and \
+                c.func.value.value.id in env and env[c.func.value.value.id]['t'] == FDICT:
+            # D[k].append(v) on a defaultdict(list) keyed by floats: the key is created on first access (insertion order)
+            x = c.func.value.value.id
+            self.plain_args(c, 1)
+            if not env[x]['owned']:
+                self.rej(st, 'mutation of %s, which may be shared with the caller or another object (aliasing)' % x)
+            bk, tk, tyk = self.expr(c.func.value.slice, env)
+            bv, tv, tyv = self.expr(c.args[0], env)
+            L += self.emit_binds(bk + bv, ind)
+            self.need(tyk in (FLOAT, INT, UNK) and tyv in (FLOAT, INT, UNK), st, 'dictionary entry of types %s -> %s' % (tyk, tyv))
+            L.append(sp + 'let %s := py_fdict_append %s %s %s in' % (x, x, self.num(tk, tyk, FLOAT), self.num(tv, tyv, FLOAT)))
+            return cont()
+        if isinstance(c, ast.Call) and isinstance(c.func, ast.Attribute) and isinstance(c.func.value, ast.Attribute) \
+                and c.func.attr in ('append', 'extend', 'add', 'remove'):
+            self.rej(st, 'mutation of an attribute outside a constructor')
+        return FnTranslator.expr_stmt(self, st, env, L, cont, ind)
+
+    # ------------------------------------------------------------------------------------------ iteration
+    def iterable(self, it, target, env):
+        if isinstance(it, ast.Call) and isinstance(it.func, ast.Name) and it.func.id == 'enumerate' and it.func.id not in env:
+            self.plain_args(it, 1)
+            b, term, t = self.expr(it.args[0], env)
+            if not (isinstance(target, ast.Tuple) and len(target.elts) == 2 and all(isinstance(e, ast.Name) for e in target.elts)):
+                self.rej(target, 'loop target over enumerate() must be `index, value`')
+            if t != UNK and t[0] not in ('list', 'tuple', 'farr'):
+                self.rej(it, 'enumerate of a value of type %s' % (t,))
+            k, v = target.elts[0].id, target.elts[1].id
+            self.tr.ident(k, target); self.tr.ident(v, target)
+            vt = UNK if t == UNK else (FLOAT if t == FARR else t[1])
+            return b, '(py_enumerate %s)' % term, ('pair', INT, vt), "'(%s, %s)" % (k, v), [(k, INT), (v, vt)], False
+        if isinstance(target, ast.Name):
+            self.tr.ident(target.id, target)
+            if isinstance(it, ast.Name) and it.id in env and env[it.id]['t'] == FARR:
+                return [], it.id, FLOAT, target.id, [(target.id, FLOAT)], False
+        return FnTranslator.iterable(self, it, target, env)
+
+    # ------------------------------------------------------------------------------------------ expressions
+    def num(self, term, t, want):
+        """coerce a numeric term of type t to type want"""
+        if t == INT and want == FLOAT:
+            return '(py_Z2Qc %s)' % term
+        return term
+
+    def cmp(self, op, a, ta, b, tb, node):
+        S = self.tr.strict
+        if UNK in (ta, tb):
+            if S:
+                self.rej(node, 'comparison of values of unknown type')
+            return '?'
+        if ta == INT and tb == INT:
+            ops = {ast.Lt: '<?', ast.LtE: '<=?', ast.Gt: '>?', ast.GtE: '>=?', ast.Eq: '=?'}
+            if isinstance(op, ast.NotEq):
+                return '(negb (%s =? %s)%%Z)' % (a, b)
+            if type(op) in ops:
+                return '(%s %s %s)%%Z' % (a, ops[type(op)], b)
+        if ta in (INT, FLOAT) and tb in (INT, FLOAT):
+            a, b = self.num(a, ta, FLOAT), self.num(b, tb, FLOAT)
+            if isinstance(op, ast.Lt):
+                return '(Qc_ltb %s %s)' % (a, b)
+            if isinstance(op, ast.LtE):
+                return '(Qc_leb %s %s)' % (a, b)
+            if isinstance(op, ast.Gt):
+                return '(Qc_ltb %s %s)' % (b, a)
+            if isinstance(op, ast.GtE):
+                return '(Qc_leb %s %s)' % (b, a)
+            if isinstance(op, ast.Eq):
+                return '(Qc_eqb %s %s)' % (a, b)
+            if isinstance(op, ast.NotEq):
+                return '(negb (Qc_eqb %s %s))' % (a, b)
+        if ta[0] == 'enum' and ta == tb and isinstance(op, (ast.Eq, ast.NotEq)):
+            r = '(%s_eqb %s %s)' % (ta[1], a, b)
+            return r if isinstance(op, ast.Eq) else '(negb %s)' % r
+        if ta == BOOL and tb == BOOL and isinstance(op, (ast.Eq, ast.NotEq)):
+            r = '(Bool.eqb %s %s)' % (a, b)
+            return r if isinstance(op, ast.Eq) else '(negb %s)' % r
+        self.rej(node, 'comparison %s of %s and %s' % (type(op).__name__, ta, tb))
+
+    def expr0(self, e, env):
+        S = self.tr.strict
+        tr = self.tr
+        if isinstance(e, ast.Constant):
+            if type(e.value) is float:
+                fr = Fraction(repr(e.value))      # the decimal number that is written
+                return [], '(py_Qc %s %d)' % (zlit(fr.numerator), fr.denominator), FLOAT
+            if type(e.value) is int and e.value >= 0:
+                return [], '%d' % e.value, INT
+            if e.value is None:
+                return [], 'None', NONE
+        if isinstance(e, ast.Name) and e.id in env and e.id in self.f.widen and env[e.id]['t'] == INT:
+            return [], '(py_Z2Qc %s)' % e.id, FLOAT
+        if isinstance(e, ast.Tuple):
+            if len(e.elts) != 2:
+                self.rej(e, 'tuple expression with %d elements (only pairs)' % len(e.elts))
+            pa = [self.expr(x, env) for x in e.elts]
+            for x, p in zip(e.elts, pa):
+                self.check_store(x, p[2], e)
+            return pa[0][0] + pa[1][0], '(%s, %s)' % (pa[0][1], pa[1][1]), ('pair', pa[0][2], pa[1][2])
+        if isinstance(e, ast.Attribute):
+            v = e.value
+            if isinstance(v, ast.Name) and v.id == 'self' and 'self' not in env and self.f.cls.mode == 'param' \
+                    and self.f.kind == 'method':
+                attrs = self.f.cls.cfg['attrs']
+                if e.attr not in attrs:
+                    self.rej(e, 'attribute self.%s: no type declared for it in the target configuration' % e.attr)
+                if e.attr not in self.f.self_attrs_new:
+                    self.f.self_attrs_new.append(e.attr)
+                return [], 'self_%s' % e.attr, attrs[e.attr]
+            if isinstance(v, ast.Name) and v.id == 'self' and self.f.kind == 'init' and getattr(self, 'init_assigned', None) is not None:
+                if e.attr not in self.init_assigned:
+                    self.rej(e, 'attribute self.%s is read before it is assigned' % e.attr)
+                return [], self.init_assigned[e.attr], tr.fam_field_type(self.f.cls.family, e.attr, e)
+            if isinstance(v, ast.Name) and v.id in tr.enums and v.id not in env:
+                if e.attr not in tr.enums[v.id]:
+                    self.rej(e, 'unknown member %s of enum %s' % (e.attr, v.id))
+                return [], '%s_%s' % (v.id, e.attr), ('enum', v.id)
+            b, term, t = self.expr(v, env)
+            if t == UNK and not S:
+                return b, '?', UNK
+            if t[0] == 'obj' and len(t) > 1:
+                fam = tr.fam_by_name(t[1])
+                ft = tr.fam_field_type(fam, e.attr, e)
+                return b, '(%s_f_%s %s)' % (fam.name, e.attr, term), ft
+            self.rej(e, 'attribute .%s of a value of type %s' % (e.attr, t))
+        if isinstance(e, ast.UnaryOp) and isinstance(e.op, (ast.USub, ast.UAdd)):
+            b, term, t = self.expr(e.operand, env)
+            if t == UNK and not S:
+                return b, '?', UNK
+            if t not in (INT, FLOAT):
+                self.rej(e, 'unary +/- on %s' % (t,))
+            if isinstance(e.op, ast.UAdd):
+                return b, term, t
+            if isinstance(e.operand, ast.Constant) and t == INT:
+                return b, '(-%s)' % term, INT
+            return b, '(- %s)%%%s' % (term, 'Z' if t == INT else 'Qc'), t
+        if isinstance(e, ast.Compare):
+            ops = e.ops
+            if len(ops) == 1 and isinstance(ops[0], (ast.In, ast.NotIn)):
+                return FnTranslator.expr0(self, e, env)
+            if len(ops) == 1 and isinstance(ops[0], (ast.Is, ast.IsNot)):
+                c = e.comparators[0]
+                if not (isinstance(c, ast.Constant) and c.value is None):
+                    self.rej(e, '`is` with anything but None')
+                b, term, t = self.expr(e.left, env)
+                if t == UNK and not S:
+                    return b, '?', BOOL
+                if t[0] != 'opt':
+                    self.rej(e, '`is None` on a value of type %s, which is never None here' % (t,))
+                r = '(match %s with None => true | Some _ => false end)' % term
+                return b, r if isinstance(ops[0], ast.Is) else '(negb %s)' % r, BOOL
+            operands = [e.left] + list(e.comparators)
+            parts = [list(self.expr(x, env)) for x in operands]
+            binds = []
+            for k, p in enumerate(parts):
+                if k >= 2 and p[0]:
+                    self.rej(e, 'chained comparison whose later operand can raise (short-circuit evaluation)')
+                binds += p[0]
+                if 0 < k < len(parts) - 1 and not isinstance(operands[k], (ast.Name, ast.Constant)):
+                    tmp = self.temp()            # the middle operand is evaluated once
+                    binds.append((tmp, 'Some %s' % p[1]))
+                    p[1] = tmp
+            conj = [self.cmp(op, parts[k][1], parts[k][2], parts[k + 1][1], parts[k + 1][2], e) for k, op in enumerate(ops)]
+            return binds, conj[0] if len(conj) == 1 else '(' + ' && '.join(conj) + ')', BOOL
+        if isinstance(e, ast.IfExp):
+            bc, tc, tyc = self.expr(e.test, env)
+            if tyc not in (BOOL, UNK):
+                self.rej(e, 'condition of type %s (truthiness is not translated)' % (tyc,))
+            ba, ta, tya = self.expr(e.body, env)
+            bb, tb, tyb = self.expr(e.orelse, env)
+            t = join(tya, tyb, e)
+            if is_mutable(t):
+                self.rej(e, 'conditional expression of mutable type')
+            ta, tb = self.num(ta, tya, t), self.num(tb, tyb, t)
+            if not ba and not bb:
+                return bc, '(if %s then %s else %s)' % (tc, ta, tb), t
+            for pt, _e in ba + bb:
+                if 'self' in pt:
+                    self.rej(e, 'method call inside a conditional expression')
+            tmp = self.temp()
+            return bc + [(tmp, 'if %s then (%s) else (%s)' % (tc, self.opt_chain(ba, 'Some %s' % ta).strip(),
+                                                              self.opt_chain(bb, 'Some %s' % tb).strip()))], tmp, t
+        if isinstance(e, ast.Subscript):
+            if isinstance(e.slice, ast.Slice):
+                sl = e.slice
+                if sl.step is not None:
+                    self.rej(e, 'slice with a step')
+                bv, tv, tyv = self.expr(e.value, env)
+                if tyv == UNK and not S:
+                    return bv, '?', UNK
+                if tyv[0] not in ('list', 'tuple', 'farr'):
+                    self.rej(e, 'slice of a value of type %s' % (tyv,))
+                if tyv == FARR and id(e) not in self.views_ok:
+                    self.rej(e, 'slice of a numpy array outside sum()/len() (a view: aliasing)')
+                bs = []
+                bt = []
+                for x in (sl.lower, sl.upper):
+                    if x is None:
+                        bt.append('None')
+                        continue
+                    bx, tx, tyx = self.expr(x, env)
+                    if bx:
+                        self.rej(e, 'raising expression as slice bound')
+                    if tyx not in (INT, UNK):
+                        self.rej(e, 'slice bound of type %s' % (tyx,))
+                    bt.append('(Some %s)' % tx)
+                rt = ('list', FLOAT) if tyv == FARR else ('list', tyv[1])
+                return bv + bs, '(py_slice %s %s %s)' % (tv, bt[0], bt[1]), rt
+            bv, tv, tyv = self.expr(e.value, env)
+            if tyv == FARR:
+                bi, ti, tyi = self.expr(e.slice, env)
+                self.need(tyi in (INT, UNK), e, 'index of type %s' % (tyi,))
+                tmp = self.temp()
+                return bv + bi + [(tmp, 'py_getitem %s %s' % (tv, ti))], tmp, FLOAT
+            if tyv[0] == 'pair':
+                k = lit_value(e.slice)
+                if k not in (0, 1) or type(k) is not int:
+                    self.rej(e, 'index of a pair that is not the literal 0 or 1')
+                return bv, '(%s %s)' % ('fst' if k == 0 else 'snd', tv), tyv[1 + k]
+        if isinstance(e, ast.Call):
+            return self.call(e, env)
+        if isinstance(e, ast.BinOp):
+            return self.binop(e, env)
+        return FnTranslator.expr0(self, e, env)
+
+    def binop(self, e, env):
+        S = self.tr.strict
+        bl, tl, tyl = self.expr(e.left, env)
+        br, tr_, tyr = self.expr(e.right, env)
+        b = bl + br
+        op = e.op
+        if UNK in (tyl, tyr) and not S:
+            return b, '?', UNK
+        if tyl in (INT, FLOAT) and tyr in (INT, FLOAT):
+            rv = lit_value(e.right)
+            if tyl == INT and tyr == INT:
+                if isinstance(op, (ast.Add, ast.Sub, ast.Mult)):
+                    return b, '(%s %s %s)%%Z' % (tl, {ast.Add: '+', ast.Sub: '-', ast.Mult: '*'}[type(op)], tr_), INT
+                if isinstance(op, (ast.Mod, ast.FloorDiv)):
+                    if rv is not None and rv > 0:
+                        return b, '(%s %s %s)%%Z' % (tl, 'mod' if isinstance(op, ast.Mod) else '/', tr_), INT
+                    if isinstance(op, ast.FloorDiv):
+                        tmp = self.temp()
+                        return b + [(tmp, 'py_floordiv %s %s' % (tl, tr_))], tmp, INT
+                    self.rej(e, '% with a divisor that is not a positive literal')
+                if isinstance(op, ast.Pow):
+                    x = e.right
+                    if (rv is not None and rv >= 0) or (isinstance(x, ast.Name) and x.id in self.range_vars):
+                        return b, '(py_pow %s %s)' % (tl, tr_), INT
+                    lv = lit_value(e.left)
+                    if rv is not None and lv is not None and lv != 0:
+                        # literal ** negative literal: a float, total
+                        return b, '(/ (Qcpower (py_Z2Qc %s) %d%%nat))%%Qc' % (tl, -rv), FLOAT
+                    # exponent of unknown sign: int for e >= 0, float for e < 0 in Python; the rational number here
+                    tmp = self.temp()
+                    return b + [(tmp, 'py_fpow (py_Z2Qc %s) %s' % (tl, tr_))], tmp, FLOAT
+            fl, fr_ = self.num(tl, tyl, FLOAT), self.num(tr_, tyr, FLOAT)
+            if isinstance(op, (ast.Add, ast.Sub, ast.Mult)):
+                return b, '(%s %s %s)%%Qc' % (fl, {ast.Add: '+', ast.Sub: '-', ast.Mult: '*'}[type(op)], fr_), FLOAT
+            if isinstance(op, ast.Div):
+                if rv is not None and rv != 0:
+                    return b, '(%s / %s)%%Qc' % (fl, fr_), FLOAT         # a non-zero literal divisor cannot raise
+                tmp = self.temp()
+                return b + [(tmp, 'py_fdiv %s %s' % (fl, fr_))], tmp, FLOAT
+            if isinstance(op, ast.Pow) and tyr == INT:
+                if rv is not None and rv >= 0:
+                    return b, '(Qcpower %s %d%%nat)' % (fl, rv), FLOAT
+                tmp = self.temp()
+                return b + [(tmp, 'py_fpow %s %s' % (fl, tr_))], tmp, FLOAT
+            self.rej(e, 'operator %s on %s and %s' % (type(op).__name__, tyl, tyr))
+        # not numeric: lists, sets, int arrays as before (these terms carry no scope delimiter: they are arguments)
+        if tyl[0] == 'list' and tyr[0] == 'list' and isinstance(op, ast.Add):
+            return b, '(%s ++ %s)' % (tl, tr_), ('list', join(tyl[1], tyr[1], e))
+        self.rej(e, 'operator %s on %s and %s' % (type(op).__name__, tyl, tyr))
+
+    # ------------------------------------------------------------------------------------------ calls
+    def call(self, c, env):
+        S = self.tr.strict
+        tr = self.tr
+        fn = c.func
+        if isinstance(fn, ast.Name) and fn.id not in env:
+            n = fn.id
+            if n in ('len', 'sum') and len(c.args) == 1 and isinstance(c.args[0], ast.Subscript) and isinstance(c.args[0].slice, ast.Slice):
+                self.views_ok.add(id(c.args[0]))
+            if n == 'defaultdict':
+                self.need(len(c.args) == 1 and not c.keywords and isinstance(c.args[0], ast.Name) and c.args[0].id == 'list'
+                          and 'list' not in env, c, 'defaultdict(..) other than defaultdict(list)')
+                return [], '[]', FDICT
+            if n == 'len':
+                self.plain_args(c, 1)
+                b, term, t = self.expr(c.args[0], env)
+                if t[0] == 'pair':
+                    return b, '%d' % (len(t) - 1), INT
+                self.need(t[0] in ('list', 'tuple', 'set', 'dict', 'nparr', 'farr', 'fdict') or t == UNK, c, 'len of %s' % (t,))
+                return b, '(py_len %s)' % term, INT
+            if n == 'sum':
+                self.plain_args(c, 1)
+                b, term, t = self.expr(c.args[0], env, consume=True)
+                if t == UNK and not S:
+                    return b, '?', UNK
+                if t == FARR or (t[0] in ('list', 'tuple', 'iter') and t[1] == FLOAT):
+                    return b, '(py_fsum %s)' % term, FLOAT
+                self.need(t[0] in ('list', 'tuple', 'iter') and t[1] == INT, c, 'sum of %s' % (t,))
+                return b, '(py_sum %s)' % term, INT
+            if n == 'abs':
+                self.plain_args(c, 1)
+                b, term, t = self.expr(c.args[0], env)
+                if t == FLOAT:
+                    return b, '(Qc_abs %s)' % term, FLOAT
+                self.need(t in (INT, UNK), c, 'abs of %s' % (t,))
+                return b, '(Z.abs %s)' % term, INT
+            if n in ('min', 'max') and len(c.args) == 1:
+                self.plain_args(c, 1)
+                b, term, t = self.expr(c.args[0], env)
+                if t == UNK and not S:
+                    return b, '?', UNK
+                self.need(t[0] in ('list', 'tuple') and t[1] == INT, c, '%s of %s (only a list of ints)' % (n, t))
+                tmp = self.temp()
+                return b + [(tmp, 'py_list_%s %s' % (n, term))], tmp, INT          # ValueError for an empty list
+            if n in ('min', 'max') and len(c.args) == 2:
+                self.plain_args(c, 2)
+                p = [self.expr(a, env) for a in c.args]
+                if all(x[2] in (INT, UNK) for x in p):
+                    return p[0][0] + p[1][0], '(Z.%s %s %s)' % (n, p[0][1], p[1][1]), INT
+                self.need(all(x[2] in (INT, FLOAT) for x in p), c, '%s of %s' % (n, [x[2] for x in p]))
+                return p[0][0] + p[1][0], '(Qc_%s %s %s)' % (n, self.num(p[0][1], p[0][2], FLOAT), self.num(p[1][1], p[1][2], FLOAT)), FLOAT
+            if n == 'float':
+                self.plain_args(c, 1)
+                b, term, t = self.expr(c.args[0], env)
+                self.need(t in (INT, FLOAT, UNK), c, 'float() of %s' % (t,))
+                return b, self.num(term, t, FLOAT), FLOAT
+            if n == 'int':
+                self.plain_args(c, 1)
+                b, term, t = self.expr(c.args[0], env)
+                if t == FLOAT:
+                    return b, '(py_int_of_float %s)' % term, INT
+                self.need(t in (INT, UNK), c, 'int() of %s' % (t,))
+                return b, term, INT
+            if n in tr.classes:
+                ci = tr.classes[n]
+                self.need(ci.mode == 'record', c, 'construction of an object of class %s (translated in param mode)' % n)
+                self.need(ci.is_concrete, c, 'construction of an object of the abstract class %s' % n)
+                g = None
+                for k in ci.mro():
+                    if '__init__' in k.defs:
+                        g = k.defs['__init__']
+                        break
+                self.need(g is not None, c, 'class %s has no translated __init__' % n)
+                tr.ensure(g.qual, c)
+                binds, terms = self.call_args(g, c, env)
+                fam = ci.family
+                tmp = self.temp()
+                tag = ' %s_C_%s' % (fam.name, ci.name) if fam.tagged else ''
+                binds.append((tmp, '%s%s %s' % (g.gname, tag, ' '.join(terms))))
+                return binds, tmp, ('obj', fam.name)
+            if n in ('print', 'super', 'isinstance', 'enumerate', 'sorted'):
+                self.rej(c, 'call of %s in this position' % n)
+            return FnTranslator.call(self, c, env)
+        if isinstance(fn, ast.Attribute):
+            m = fn.attr
+            v = fn.value
+            if isinstance(v, ast.Name) and v.id == 'np' and 'np' not in env:
+                if m == 'zeros':
+                    self.plain_args(c, 1)
+                    b, term, t = self.expr(c.args[0], env)
+                    self.need(t in (INT, UNK), c, 'np.zeros of %s (only a length)' % (t,))
+                    tmp = self.temp()
+                    return b + [(tmp, 'np_zeros %s' % term)], tmp, FARR
+                if m == 'array':
+                    self.plain_args(c, 1)
+                    self.need(isinstance(c.args[0], (ast.List, ast.ListComp)), c, 'np.array of anything but a fresh list of floats')
+                    b, term, t = self.expr(c.args[0], env)
+                    self.need(t == UNK or (t[0] == 'list' and t[1] in (FLOAT, UNK)), c, 'np.array of %s' % (t,))
+                    return b, term, FARR
+                self.rej(c, 'numpy function np.%s' % m)
+            if isinstance(v, ast.Name) and v.id in tr.classes and v.id not in env:
+                ci = tr.classes[v.id]
+                g = tr.resolve(ci, m)
+                self.need(g is not None and g.kind == 'static', c, 'call of %s.%s (not a translated static method)' % (v.id, m))
+                return self.call_unit(g, None, c, env)
+            if isinstance(v, ast.Name) and v.id == 'self' and self.f.kind == 'method' and self.f.cls.mode == 'param':
+                g = tr.param_unit(self.f.cls, m, c, within=getattr(self.f, 'defcls', self.f.cls))
+                self.need(g is not None, c, 'call of self.%s: not among the translated methods of %s and its listed bases'
+                          % (m, self.f.cls.name))
+                return self.call_unit(g, 'self', c, env)
+            # method call on an object of a record family / l.index(x) on a list of ints
+            b, term, t = self.expr(v, env)
+            if m == 'index' and t != UNK and t[0] in ('list', 'tuple') and t[1] == INT:
+                self.plain_args(c, 1)
+                ba, ta, tya = self.expr(c.args[0], env)
+                self.need(tya in (INT, UNK), c, '.index of a value of type %s' % (tya,))
+                tmp = self.temp()
+                return b + ba + [(tmp, 'py_list_index %s %s' % (term, ta))], tmp, INT      # ValueError if absent
+            if t == UNK and not S:
+                for a in c.args:
+                    self.expr(a, env)
+                return b, '?', UNK
+            if t[0] == 'obj' and len(t) > 1:
+                fam = tr.fam_by_name(t[1])
+                if isinstance(v, ast.Name) and v.id == 'self' and self.f.kind == 'method':
+                    cands = [k for k in fam.concrete() if self.f.cls in list(k.mro())]
+                else:
+                    cands = fam.concrete()
+                self.need(cands, c, 'method call on an object of a family without concrete classes')
+                res = []
+                for k in cands:
+                    g = tr.resolve(k, m)
+                    self.need(g is not None and g.kind in ('method', 'static'), c, 'method %s is not defined for class %s' % (m, k.name))
+                    res.append((k, g))
+                gs = []
+                for k, g in res:
+                    if g not in gs:
+                        gs.append(g)
+                if len(gs) == 1:
+                    bb, tt, ty = self.call_unit(gs[0], term, c, env)
+                    return b + bb, tt, ty
+                bb, tt, ty = self.call_dispatch(fam, m, res, term, c, env)
+                return b + bb, tt, ty
+            self.rej(c, 'call of %s on a value of type %s' % (m, t))
+        self.rej(c, 'call of %s' % ast.unparse(fn))
+
+    def call_args(self, g, c, env):
+        """argument terms of a call of the translated unit g, in parameter order; binds in evaluation order"""
+        self.need(not any(isinstance(a, ast.Starred) for a in c.args), c, 'star arguments')
+        self.need(len(c.args) <= len(g.params), c, 'too many arguments for %s' % g.qual)
+        self.need(not g.returns_alias, c, 'call of %s, which returns one of its mutable attributes/arguments (aliasing)' % g.qual)
+        given = {}
+        for (n, t, d), a in zip(g.params, c.args):
+            given[n] = a
+        for k in c.keywords:
+            self.need(k.arg is not None and k.arg in [p[0] for p in g.params] and k.arg not in given, c,
+                      'keyword argument %s of %s' % (k.arg, g.qual))
+            given[k.arg] = k.value
+        order = list(c.args) + [k.value for k in c.keywords]
+        trans = {}
+        binds = []
+        for a in order:
+            b, term, t = self.expr(a, env)
+            binds += b
+            trans[id(a)] = (term, t)
+        terms = []
+        for (n, t, d) in g.params:
+            if n in given:
+                term, ta = trans[id(given[n])]
+                if ta == INT and t == FLOAT:
+                    term, ta = '(py_Z2Qc %s)' % term, FLOAT
+                if t[0] == 'opt' and ta[0] != 'opt' and ta != UNK:
+                    if ta == NONE:
+                        term, ta = 'None', t
+                    else:
+                        term, ta = '(Some %s)' % term, ('opt', ta)
+                if ta == FARR and t == ('list', FLOAT):
+                    ta = t
+                if not (ta == UNK and not self.tr.strict) and not same_repr(ta, t):
+                    self.rej(c, 'argument %s of %s has type %s, expected %s' % (n, g.qual, ta, t))
+                terms.append(term)
+            else:
+                self.need(d is not None, c, 'missing argument %s of %s' % (n, g.qual))
+                terms.append(d)
+        return binds, terms
+
+    def call_unit(self, g, recv, c, env):
+        """call of one translated function; recv: None (static / function), 'self' (param mode), or the term of the receiver"""
+        tr = self.tr
+        rec = g.qual == self.f.qual
+        if rec:
+            self.need(self.f.recursive, c, 'recursive call of %s without a declared fuel measure' % g.qual)
+        else:
+            tr.ensure(g.qual, c)
+        binds, terms = self.call_args(g, c, env)
+        pre = []
+        if g.cls.mode == 'param' and g.kind == 'method':
+            self.need(recv == 'self', c, 'method %s of a class translated in param mode called on another object' % g.qual)
+            for a in g.self_attrs:
+                if a not in self.f.self_attrs_new:
+                    self.f.self_attrs_new.append(a)
+                pre.append('self_' + a)
+        elif g.kind == 'method':
+            pre.append(recv)
+        name = g.gname + ('_rec fuel' if rec else '')
+        tmp = self.temp()
+        binds.append((tmp, ' '.join([name] + pre + terms)))
+        rt = g.ret
+        if rt == NONE:
+            return binds, 'tt', NONE
+        return binds, tmp, rt
+
+    def call_dispatch(self, fam, m, res, recv, c, env):
+        tr = self.tr
+        key = (fam.name, m, tuple(k.name for k, g in res))
+        for k, g in res:
+            self.need(g.qual != self.f.qual, c, 'recursion through dynamic dispatch')
+            tr.ensure(g.qual, c)
+        g0 = res[0][1]
+        for k, g in res[1:]:
+            self.need(len(g.params) == len(g0.params) and all(same_repr(p[1], q_[1]) and p[0] == q_[0] and p[2] == q_[2]
+                                                              for p, q_ in zip(g.params, g0.params)), c,
+                      'overriding methods %s and %s have different signatures' % (g0.qual, g.qual))
+            self.need(g.kind == g0.kind == 'method', c, 'dispatch over static methods')
+        rt = UNK
+        for k, g in res:
+            rt = join(rt, g.ret, c)
+        dname = '%s_dyn_%s' % (fam.name, m) if len(res) == len(fam.concrete()) else \
+            '%s_dyn_%s_below_%s' % (fam.name, m, self.f.cls.name)
+        if key not in tr.dispatchers:
+            params = ''.join(' (%s : %s)' % (n, gt(t, c) if not has_unk(t) else '_') for n, t, d in g0.params)
+            rts = gt(rt, c) if not has_unk(rt) else '_'
+            lines = ['(* dynamic dispatch of .%s on an object of the family %s (closed world: %s) *)'
+                     % (m, fam.name, ', '.join(k.name for k, g in res)),
+                     'Definition %s (self : %s)%s : option %s :=' % (dname, fam.tname, params, rts),
+                     '  match %s_cls_of self with' % fam.name]
+            covered = set()
+            for k, g in res:
+                call = ' '.join([g.gname, 'self'] + [n for n, t, d in g0.params])
+                if g.ret == INT and rt == FLOAT:
+                    call = 'option_map py_Z2Qc (%s)' % call
+                lines.append('  | %s_C_%s => %s' % (fam.name, k.name, call))
+                covered.add(k.name)
+            if len(covered) < len(fam.concrete()):
+                lines.append('  | _ => None')
+            lines.append('  end.\n')
+            tr.dispatchers[key] = dname
+            tr.done.append(('dispatch:' + dname, '\n'.join(lines)))
+        fake = Fn(g0.qual, g0.node, 'method', g0.file)
+        fake.params = g0.params
+        fake.returns_alias = any(g.returns_alias for k, g in res)
+        binds, terms = self.call_args(fake, c, env)
+        tmp = self.temp()
+        binds.append((tmp, ' '.join([dname, recv] + terms)))
+        if rt == NONE:
+            return binds, 'tt', NONE
+        return binds, tmp, rt
+
+
+NUM_HEADER = '''(* GENERATED by harness/translate/py2gallina.py --target %s -- DO NOT EDIT.  Regenerated from the Python source at
+   every ./setup.sh %s and at the start of every ./check %s run; the translation scheme is documented in the translator,
+   the meaning of the py_* / np_* operations in Base/PyLib.v and Base/PyNum.v.
+   TRUSTED READING: Python floats are exact rationals (Qc); float arithmetic and float comparisons are exact; rounding
+   is not modelled.
+   sources: %s *)
+From Coq Require Import ZArith List Bool QArith Qcanon.
+From SG Require Import Base.QcUtil Base.PyLib Base.PyNum.
+Import ListNotations.
+Open Scope Z_scope.
+Open Scope py_scope.
+'''
+
+
+def render_num(tr, fns):
+    cfg = tr.cfg
+    out = [NUM_HEADER % (tr.tname, cfg['prop'], cfg['prop'], ', '.join(tr.sources))]
+    for en, members in tr.enums.items():
+        out.append('(* enum %s *)' % en)
+        out.append('Inductive %s : Type := %s.' % (en, ' | '.join('%s_%s' % (en, m) for m in members)))
+        cases = ' '.join('| %s_%s, %s_%s => true' % (en, m, en, m) for m in members)
+        out.append('Definition %s_eqb (a b : %s) : bool := match a, b with %s%s end.\n'
+                   % (en, en, cases, ' | _, _ => false' if len(members) > 1 else ''))
+    # families in dependency order of their field types
+    fams = list(tr.families)
+    order = []
+
+    def visit(fam, stack):
+        if fam in order:
+            return
+        if fam in stack:
+            raise Reject(fam.root.node, 'cyclic object types between families')
+        for a in fam.field_order:
+            def deps(t):
+                if t[0] == 'obj' and len(t) > 1:
+                    visit(tr.fam_by_name(t[1]), stack + [fam])
+                for x in t[1:]:
+                    if isinstance(x, tuple):
+                        deps(x)
+            deps(fam.fields[a])
+        order.append(fam)
+    for fam in fams:
+        visit(fam, [])
+    for fam in order:
+        n = fam.name
+        out.append('(* objects of the class family %s: %s *)' % (n, ', '.join(
+            c.name + ('' if c.is_concrete else ' (abstract)') for c in fam.members)))
+        conc = fam.concrete()
+        if fam.tagged:
+            if not conc:
+                raise Reject(fam.root.node, 'family %s has no concrete class' % n)
+            out.append('Inductive %s_cls : Type := %s.' % (n, ' | '.join('%s_C_%s' % (n, c.name) for c in conc)))
+        rec = []
+        if fam.tagged:
+            rec.append('  %s_cls_of : %s_cls' % (n, n))
+        for a in fam.field_order:
+            rec.append('  %s_f_%s : %s' % (n, a, gt(fam.fields[a])))
+        out.append('Record %s : Type := mk_%s {\n' % (fam.tname, fam.tname) + ';\n'.join(rec) + '\n}.')
+        for a in fam.field_order:
+            args = ' '.join('v' if b == a else '(%s_f_%s o)' % (n, b) for b in fam.field_order)
+            tag = ' (%s_cls_of o)' % n if fam.tagged else ''
+            out.append('Definition set_%s_f_%s (o : %s) v : %s := mk_%s%s %s.' % (n, a, fam.tname, fam.tname, fam.tname, tag, args))
+        out.append('')
+    for q, text in fns:
+        out.append(text)
+    return '\n'.join(out)
+
+
 HEADER = '''(* GENERATED by harness/translate/py2gallina.py -- DO NOT EDIT.  Regenerated from the Python source at every
    ./setup.sh and ./check C01 run; the translation scheme is documented in the translator, the meaning of the py_*
    operations in Base/PyLib.v.
@@ -1322,25 +2891,40 @@ def render(tr, fns):
 
 
 def main(argv):
+    import warnings
+    warnings.simplefilter('ignore')      # SyntaxWarnings of the parsed sources are not ours
     repo = os.environ.get('VERIF_REPO', '/repo')
-    outp = os.path.join(VERIF, 'coq', 'Gen', 'CombiSchemeGen.v')
+    outp = None
+    target = 'combischeme'
     to_stdout = False
+    extra_fuel = {}
     i = 0
     while i < len(argv):
         if argv[i] == '--repo':
             repo = argv[i + 1]; i += 2
         elif argv[i] == '--out':
             outp = argv[i + 1]; i += 2
+        elif argv[i] == '--target' and argv[i + 1] in ['combischeme'] + list(NUM_TARGETS):
+            target = argv[i + 1]; i += 2
         elif argv[i] == '--stdout':
             to_stdout = True; i += 1
+        elif argv[i] == '--while-fuel' and '=' in argv[i + 1]:
+            # development aid: declare a fuel measure  Class.method=<nat term>  (repeatable) in addition to the configuration
+            q, m = argv[i + 1].split('=', 1)
+            extra_fuel.setdefault(q, []).append(m); i += 2
         else:
-            sys.stderr.write(__doc__)
+            sys.stderr.write(__doc__ + NUM_DOC)
             return 2
-    tr = Translator(repo)
+    if outp is None:
+        outp = os.path.join(VERIF, 'coq', 'Gen', 'CombiSchemeGen.v' if target == 'combischeme' else NUM_TARGETS[target]['out'])
+    tr = Translator(repo) if target == 'combischeme' else NumTranslator(repo, target)
+    if extra_fuel and target != 'combischeme':
+        for q, ms in extra_fuel.items():
+            tr.while_fuel.setdefault(q, []).extend(ms)
     rc = 0
     try:
         fns = tr.translate()
-        text = render(tr, fns)
+        text = render(tr, fns) if target == 'combischeme' else render_num(tr, fns)
     except Reject as r:
         msg = 'py2gallina: REJECT %s:%d: %s' % (tr.curfile, r.line, r.what)
         sys.stderr.write(msg + '\n')
@@ -1363,6 +2947,13 @@ def main(argv):
         tmp = outp + '.tmp%d' % os.getpid()
         open(tmp, 'w').write(text)
         os.replace(tmp, outp)
+        # the compiled form of the previous version must not survive a failing rebuild (a stale .vo would let everything
+        # that depends on the generated model keep "building")
+        for ext in ('.vo', '.vos', '.vok', '.glob'):
+            try:
+                os.remove(outp[:-2] + ext)
+            except OSError:
+                pass
     return rc
 
 
